@@ -77,3 +77,11 @@ META = {
         "technique": "Coq proof + correspondence by vm_compute",
     },
 }
+
+META["C07"] = {
+    "text": "PLACEHOLDER",
+    "design_ref": "DESIGN.md section 6 C07",
+    "note": "PLACEHOLDER",
+    "technique": "Coq proof + four-way correspondence (real engine long-lived / per-request, model long-lived / per-request) by vm_compute",
+}
+META["C08"] = dict(META["C07"], design_ref="DESIGN.md section 6 C08")
